@@ -26,6 +26,9 @@ type NCServer struct {
 	// made the client's write of that separator fail)
 	MissingLF int
 	EchoCRLF  bool // echo converts LF to CRLF
+	// HoldEcho: while set, the echo is withheld (a stalled network); it is delivered in front of the next echo that is not held
+	HoldEcho bool
+	heldEcho []byte
 
 	// Reply returns the bytes to send in reaction to a complete request (nil: nothing now).
 	Reply func(s *NCServer, r NCRequest) []byte
@@ -81,7 +84,12 @@ func (s *NCServer) OnInput(b []byte) []byte {
 			e = bytes.ReplaceAll(b, []byte("\n"), []byte("\r\n"))
 		}
 
-		out = append(out, e...)
+		if s.HoldEcho {
+			s.heldEcho = append(s.heldEcho, e...)
+		} else {
+			out = append(append(out, s.heldEcho...), e...)
+			s.heldEcho = nil
+		}
 	}
 
 	if s.dead {
